@@ -162,18 +162,16 @@ Section WithFacts.
     else if negb (mem d n) then Ok (n ++ [(d, NInst)])%list
     else if coll_dfl_ok && str_in (hd "" (w_dests w)) dfl then Ok (set_key d NInst n)
     else Err coll_err.
-  Fixpoint inst_dests (forest : list wrapper) (dfl : list string) (n1 : nsp) (w : wrapper) (ds : list string) (n : nsp) : res nsp :=
-    match ds with
+  (* `for dc_wrapper in sorted_dc_wrappers: for destination in dc_wrapper.destinations` *)
+  Definition top_pairs (forest : list wrapper) : list (wrapper * string) :=
+    flat_map (fun w => map (fun d => (w, d)) (w_dests w)) (top_wrappers forest).
+  Fixpoint inst_all (forest : list wrapper) (dfl : list string) (n1 : nsp) (l : list (wrapper * string)) (n : nsp) : res nsp :=
+    match l with
     | [] => Ok n
-    | d :: r => match inst_one forest dfl n1 w n d with Ok n' => inst_dests forest dfl n1 w r n' | Err e => Err e end
-    end.
-  Fixpoint inst_wrappers (forest : list wrapper) (dfl : list string) (n1 : nsp) (ws : list wrapper) (n : nsp) : res nsp :=
-    match ws with
-    | [] => Ok n
-    | w :: r => match inst_dests forest dfl n1 w (w_dests w) n with Ok n' => inst_wrappers forest dfl n1 r n' | Err e => Err e end
+    | (w, d) :: r => match inst_one forest dfl n1 w n d with Ok n' => inst_all forest dfl n1 r n' | Err e => Err e end
     end.
   Definition instantiate (forest : list wrapper) (dfl : list string) (n1 n2 : nsp) : res nsp :=
-    inst_wrappers forest dfl n1 (top_wrappers forest) n2.
+    inst_all forest dfl n1 (top_pairs forest) n2.
 
   (* _postprocessing *)
   Definition post (forest : list wrapper) (dfl : list string) (n : nsp) : res nsp :=
@@ -197,6 +195,15 @@ Section WithFacts.
           | Err e => Err e
           | Ok (n, ex) => match post forest (default_keys acts) n with Ok n' => Ok (n', ex) | Err e => Err e end
           end
+      end.
+
+    (* ArgumentParser.parse_args is argparse's: parse_known_args (ours, post-processing included), then error on leftovers *)
+    Definition sp_parse_args (pre : option err) (parents plain : list action) (forest : list wrapper) (argv : list string)
+      : res (nsp * list string) :=
+      match sp_known pre parents plain forest argv with
+      | Ok (n, []) => Ok (n, [])
+      | Ok (_, _ :: _) => Err (Exit 2)
+      | Err e => Err e
       end.
 
     (* the reference: argparse with the same declarations (parents included) and stand-ins, then the clean-up *)
